@@ -365,6 +365,14 @@ theorem dm_equals_mixture_with_uniform_measurements (ns : Bool) (ne np nc : Nat)
     ∃ ρ, d.ρ = some ρ ∧ Mat.EqOn ρ (mixtureDensity (ne + np) s.mix) :=
   dm_equals_mixture_meas ns ne np nc det ops hw s d hs hd hu hW
 
+/-- … and then both backends give the same fidelity `tr(ρ ρ_T) = Σ_k w_k tr(ρ_{T_k} ρ_T)` with every stabilizer target `T` -/
+theorem same_overlap_with_uniform_measurements (ns : Bool) (ne np nc : Nat) (det : Bool) (ops : List COp)
+    (hw : ∀ op ∈ ops, OpOK2 (ne + np) np op) (s : StabSt) (d : DmSt)
+    (hs : compileStab ns ne np nc det ops = .ok s) (hd : compileDM ns ne np nc det ops = .ok d)
+    (hu : s.nonUniform = false) (hW : wThr < Mix.total s.mix) (T : Tab) (hT : T.n = ne + np) :
+    ∃ ρ, d.ρ = some ρ ∧ (ρ.mul (stabilizerDensity T)).trace = mixOverlapQ T s.mix :=
+  overlap_both_backends_meas ns ne np nc det ops hw s d hs hd hu hW T hT
+
 /-- one measurement, Hilbert-space level, all branches random: the per-branch update is `2 Π_o R Π_o` of `R = Σ w_k ρ(T_k)`,
     and both outcomes have probability `(Σ w_k)/2` -/
 theorem uniform_random_measurement (n q : Nat) (hq : q < n) (det : Bool) (m : Mixture) (hg : MixGood n m)
